@@ -356,6 +356,8 @@ def c08(res):
 def c09(res):
     wd = workdir("C09")
     q = res.tier == "quick"
+    for cfg in ("OctreeMerge_A2.cfg", "OctreeMerge_A3.cfg"):
+        res.models.append(model_check("OctreeMerge", cfg, wd, workers=4, timeout=1200))
     res.models.append(model_check("Par", "Par.cfg" if q else "Par_thorough.cfg", wd, workers=8, timeout=3000))
     trace = os.path.join(wd, "trace.ndjson")
     if not run_recorder(res, "par", [res.tier, trace], wd, timeout=3000):
